@@ -485,7 +485,10 @@ def replay_behaviour(chk, m: Model, partial: bool, steps, hits: Dict[str, int], 
         clauses = clauses + ['constructed_' + x for x in new_bad]
         detail['constructed'] = _rv(m.content(m.last_constructed))
     except Exception as e:  # pylint: disable=broad-except
+      # the clauses cannot even be evaluated on what the call left behind: an unexpected state is a violation
       clauses = ['unreadable_state']
+      if st['out'] in ('err', 'any') and _norm(after) not in alts:
+        clauses.append('rejected_write_stored')
       detail['error'] = f'{type(e).__name__}: {e}'
     if m.kind == 'nest' and 'unreadable_state' not in clauses:
       clauses = clauses + stale_facts(m.ext())
